@@ -53,6 +53,17 @@ VSRev(ev) == Ok(ev[3] = RevStrand(ev[2]), "strand-reverse")
 VSRel(ev) == Ok(ev[4] = RelStrand(ev[2], ev[3]), "strand-compose")
 VSSym(ev) == Ok(ev[3] = StrandInt(ev[2]) /\ ev[4] = ev[2] /\ ev[5] = ev[2] /\ ev[6] = ev[2], "strand-roundtrip")
 
+(* ["sord", a, b, a<b, a>b, a<=b, a>=b, a=b, a#b, min, max, sorted, sameHash] : the comparison operators of the strand
+   enumeration describe one total order, and min / max / sorted agree with it *)
+VSOrd(ev) ==
+  LET a == ev[2] b == ev[3] lt == ev[4] gt == ev[5] le == ev[6] ge == ev[7] eq == ev[8] ne == ev[9] IN
+  IF eq # (a = b) \/ ne # ~eq THEN "strand-order:equality"
+  ELSE IF eq /\ ~ev[13] THEN "strand-order:equal-strands-hash-alike"
+  ELSE IF (IF lt THEN 1 ELSE 0) + (IF gt THEN 1 ELSE 0) + (IF eq THEN 1 ELSE 0) # 1 THEN "strand-order:trichotomy"
+  ELSE IF le # (lt \/ eq) \/ ge # (gt \/ eq) THEN "strand-order:operators-agree"
+  ELSE IF ev[10] # (IF lt \/ eq THEN a ELSE b) \/ ev[11] # (IF gt \/ eq THEN a ELSE b) THEN "strand-order:min-max"
+  ELSE IF ev[12] # (IF lt \/ eq THEN <<a, b>> ELSE <<b, a>>) THEN "strand-order:sorted"
+  ELSE "ok"
 (* ["biotype", a, b, sameValue] *)
 VBiotype(ev) == Ok(ev[4] = SameBiotype(ev[2], ev[3]), "biotype-synonyms")
 
@@ -60,7 +71,7 @@ Verdict(ev) == CASE ev[1] = "codon" -> VCodon(ev) [] ev[1] = "gencode" -> VGenco
                  [] ev[1] = "aacodons" -> VAaCodons(ev) [] ev[1] = "starts" -> VStarts(ev)
                  [] ev[1] = "comp" -> VComp(ev) [] ev[1] = "complen" -> VCompLen(ev)
                  [] ev[1] = "shift" -> VShift(ev) [] ev[1] = "f2p" -> VF2P(ev) [] ev[1] = "p2f" -> VP2F(ev)
-                 [] ev[1] = "srev" -> VSRev(ev) [] ev[1] = "srel" -> VSRel(ev) [] ev[1] = "ssym" -> VSSym(ev)
+                 [] ev[1] = "srev" -> VSRev(ev) [] ev[1] = "srel" -> VSRel(ev) [] ev[1] = "ssym" -> VSSym(ev) [] ev[1] = "sord" -> VSOrd(ev)
                  [] ev[1] = "biotype" -> VBiotype(ev)
                  [] OTHER -> "unknown-op"
 
